@@ -476,7 +476,7 @@ func init() {
 		Rule:        "case = (grammar, input bytes, filename, entry point). Grammars: generated grammar programs (free of the library's own 'grammar bug' constructs) and 17 of the repository's example grammars compiled from a copy of their current sources. Inputs: renderings and token edits of derivations, arbitrary bytes incl. invalid UTF-8 and NUL, soup, the examples' own corpus files truncated/spliced/duplicated/mutated, the empty input, and synthesised flat (n=100 vs 10^4; thorough 10^5) and nested (10/20/300 levels) families. Monitors: panic flag on ParseString/ParseBytes/Parse and Parser.Lex; error oracle on every non-nil error (participle.Error; filename; offset within bounds; line/column recomputed from the offset; text = position + message; unexpected-token errors name the token Parser.Lex has at that position; nil AST iff lexing failed); Trace-depth monitor: constant depth on flat families, depth linear in nesting. Non-trivial: every non-empty input (each is judged by the full oracle). Distinct by (grammar, input).",
 		Assumptions: []string{"for the two examples with Parseable/ParseTypeWith user code only the panic monitor and the AST-nil rule are applied", "exponential (grammar,input) pairs are skipped by the reference-cost guard for generated grammars; hangs on example grammars are decided by the child watchdog plus isolated re-run", "thrift/ebnf/generics examples are not included (thrift's test dependency is not cached; the others add nothing)"},
 		Batches:     func(t string) int { return pick(t, 4, 16) },
-		Floor:       func(t string) int { return pick(t, 5000, 50000) },
+		Floor:       func(t string) int { return pick(t, 3000, 30000) },
 		TimeoutSec:  func(t string) int { return pick(t, 400, 3600) },
 		Prepare: gramPrepareEx("C06", func(t string) int { return pick(t, 60, 150) }, c06Opts, witnessExtra, false, func(dir string) error {
 			_, err := gram.EmitExamples(dir, c06Examples)
